@@ -5,6 +5,8 @@
             pub fn into_stream(input: $INPUT, src: &mut crate::stream::TcpStream) -> (s: crate::VStream<$REPLY>)
                 ensures
                     final(src).cfg() == old(src).cfg(),
+                    final(src).pending_drop() == old(src).pending_drop(),
+                    final(src).reused_bad() == (old(src).reused_bad() || old(src).pending_drop()),
                     final(src).log() == old(src).log().push(crate::stream::Exch {
                         req: crate::stream::Req::$SEQ(input),
                         items: crate::stream::AnyItems::$SEQ(s.rest()),
